@@ -51,19 +51,22 @@ THEOREMS = ['C16_split_flags_star', 'C16_split_flags_plus',
             'C16_conflicting_flags_rejected_trcl', 'C16_trcl_copy_in_table',
             'C16_unflagged_deck_no_entries',
             'C16_macrobody_flag_stops_run_t', 'C16_bc_entry_sound',
-            'C16_bc_stale_kind_quirk']
+            'C16_bc_stale_kind_quirk', 'C16_bc_designates_keys',
+            'C16_aux_ids_above', 'C16_bc_designates_keys_trcl']
 TRUSTED = [
     'hand-written model coq/C16/Model.v (modelled, tied by execution only)',
     'surfaces are abstract in the model: a descriptor class stands for '
     'SurfaceT4.__eq__ (type, parameters, transform); the harness assigns the '
     'classes from a hand-written table of canonical TRIPOLI-4 forms and the '
     'tie compares them with the written SURF lines',
-    'cells of the model are intersections of signed single-part surfaces, '
-    'optionally with a TRCL (the descriptor class of each transformed copy is '
-    'supplied by the harness from the translated canonical form: only '
-    'translations are generated in the tie stream); unions, complements, '
-    'FILL copies, TR on surface cards and multi-part surfaces referenced by '
-    'cells are covered by the oracle sweep only',
+    'cells of the model are intersections of signed surface numbers (single '
+    'surfaces with either sense, one-sheet cones and macrobodies with the '
+    'negative sense: pot_expand_surfs), optionally with a TRCL (descriptor '
+    'classes and sides of each transformed copy are supplied by the harness '
+    'from a hand-written rigid-motion table: translations and quarter-turn '
+    'rotations in the tie stream); unions (incl. positive literals of '
+    'collections), complements, FILL copies and TR on surface cards are '
+    'covered by the oracle sweep only',
     'the union helper planes (two PLANEX ids above every other id) are not in '
     'the model: intersection-only cells never use them and they can never be '
     'the smallest of a duplicate group',
@@ -170,12 +173,26 @@ def moved_form(form, tr):
     return ('CONE' + 'XYZ'[j], (*(float(x) + 0.0 for x in q), *rest))
 
 
-for _locus, _form, _sp in list(POOL):
-    for _sh in SHIFTS:
-        CLASS_OF.setdefault(moved_form(_form, tr_spec(_sh)),
-                            len(CLASS_OF) + 1)
-assert len(CLASS_OF) < FRESH0
-FORM_OF_CLASS = {v: k for k, v in CLASS_OF.items()}
+
+
+def moved_parts(s, trcl):
+    '''(descriptor classes, sides) of the sub-surfaces of the copy of card
+    `s` made for a cell with TRCL=(trcl).  Facets of a macrobody move as
+    planes and keep their sides; the plane of a one-sheet cone is made anew
+    from the moved cone: normal to its axis through the apex, the kept sheet
+    on its positive side when the sheet points along the positive axis.'''
+    forms = [FORM_OF_CLASS[c] for c in [s['cls']] + list(s['aux'])]
+    sides = list(s.get('sides') or [True] * len(forms))
+    tr = tr_spec(trcl)
+    moved = [moved_form(f, tr) for f in forms]
+    if s['text'].startswith('kz') and len(forms) == 2:
+        sheet = 1.0 if sides[1] is False else -1.0
+        axis = tr[1] @ np.array([0.0, 0.0, 1.0])
+        j = AXES[tuple(abs(float(x)) for x in axis)]
+        sheet *= float(axis[j])
+        moved[1] = ('PLANE' + 'XYZ'[j], (moved[0][1][j],))
+        sides[1] = sheet < 0
+    return [CLASS_OF[f] for f in moved], sides
 
 
 def moved_cls(cls, trcl):
@@ -186,15 +203,43 @@ def moved_cls(cls, trcl):
         return 0
     return CLASS_OF[moved_form(form, tr_spec(trcl))]
 
-# cards with several sub-surfaces: spelling, MCNP parts, first class, aux
-# classes (fresh unless they are a pool form)
+# cards with several sub-surfaces: spelling, MCNP parts, canonical TRIPOLI-4
+# forms of the sub-surfaces in collection order, and their sides (True = the
+# MCNP negative sense lies on the negative side of the TRIPOLI-4 surface);
+# written from the geometry of the bodies
+def _px(a): return ('PLANEX', (float(a),))
+def _py(a): return ('PLANEY', (float(a),))
+def _pz(a): return ('PLANEZ', (float(a),))
+
+
+_KZ = ('CONEZ', (0.0, 0.0, 0.0, 45.0))
 MULTI = [
-    ('kz 0 1 1', 1, CLASS_OF[('CONEZ', (0.0, 0.0, 0.0, 45.0))],
-     [CLASS_OF[('PLANEZ', (0.0,))]]),
-    ('rpp -11 12 -13 14 -15 16', 6, None, [None] * 5),
-    ('rcc 0 0 -20 0 0 1 9.5', 3, None, [None] * 2),
-    ('box -30 -30 -30 1 0 0 0 2 0 0 0 3', 6, None, [None] * 5),
+    ('kz 0 1 1', 1, [_KZ, _pz(0)], [True, False]),     # sheet z > 0
+    ('kz 0 1 -1', 1, [_KZ, _pz(0)], [True, True]),     # sheet z < 0
+    ('rpp -11 12 -13 14 -15 16', 6,
+     [_px(12), _px(-11), _py(14), _py(-13), _pz(16), _pz(-15)],
+     [True, False] * 3),
+    ('rpp -11 12 -13 3 -2 16', 6,        # two facets are pool planes
+     [_px(12), _px(-11), _py(3), _py(-13), _pz(16), _pz(-2)],
+     [True, False] * 3),
+    ('rcc 0 0 -20 0 0 40 9.5', 3,
+     [('CYLZ', (0.0, 0.0, 9.5)), _pz(20), _pz(-20)], [True, True, False]),
+    ('box -30 -30 -30 60 0 0 0 60 0 0 0 60', 6,
+     [_px(30), _px(-30), _py(30), _py(-30), _pz(30), _pz(-30)],
+     [True, False] * 3),
 ]
+for _form in [f for _l, f, _s in POOL] + [f for m in MULTI for f in m[2]]:
+    CLASS_OF.setdefault(_form, len(CLASS_OF) + 1)
+for _form in list(CLASS_OF):
+    for _sh in SHIFTS:
+        _mv = moved_form(_form, tr_spec(_sh))
+        CLASS_OF.setdefault(_mv, len(CLASS_OF) + 1)
+        if _mv[0].startswith('CONE'):      # plane of a one-sheet cone
+            _j = 'XYZ'.index(_mv[0][-1])
+            CLASS_OF.setdefault(('PLANE' + 'XYZ'[_j], (_mv[1][_j],)),
+                                len(CLASS_OF) + 1)
+assert len(CLASS_OF) < FRESH0
+FORM_OF_CLASS = {v: k for k, v in CLASS_OF.items()}
 WEIRD_FLAGS = ['**', '*+', '+*', '++', '***']
 
 
@@ -239,24 +284,13 @@ def gen_deck(rng, malformed=False):
                 if s['flag'] else ''
             surfs.append(d)
             p *= 0.4
-    fresh = [FRESH0]
-
     def multi(flag):
-        text, parts, first, aux = rng.choice(MULTI)
-        m = {'pool': None, 'locus': None, 'text': text, 'mcnp': parts,
-             'flag': flag, 'single': False}
-        if first is None:
-            fresh[0] += 1
-            first = fresh[0]
-        auxc = []
-        for a in aux:
-            if a is None:
-                fresh[0] += 1
-                a = fresh[0]
-            auxc.append(a)
-        m['cls'], m['aux'] = first, auxc
-        return m
-    if rng.random() < 0.3 and extra:
+        text, parts, forms, sides = rng.choice(MULTI)
+        return {'pool': None, 'locus': None, 'text': text, 'mcnp': parts,
+                'flag': flag, 'single': False, 'sides': sides,
+                'cls': CLASS_OF[forms[0]],
+                'aux': [CLASS_OF[f] for f in forms[1:]]}
+    if rng.random() < 0.4 and extra:
         m = multi('')
         m['id'] = extra.pop()
         surfs.append(m)
@@ -294,14 +328,20 @@ def gen_deck(rng, malformed=False):
     usable = sorted({s['id'] for s in singles if last[s['id']]['single']})
     cells = []
     n_cells = rng.randint(1, 4)
+    # collections (one-sheet cones, macrobodies): negative literals only (a
+    # positive one is a UNION, outside the model)
+    bodies = sorted(k for k, s in last.items() if not s['single'])
     for c in range(n_cells):
         k = rng.randint(1, min(4, len(usable)))
         lits = [sid if rng.random() < 0.5 else -sid
                 for sid in rng.sample(usable, k)]
+        if bodies and rng.random() < 0.5:
+            lits.insert(rng.randrange(len(lits) + 1), -rng.choice(bodies))
         cells.append({'id': c + 1, 'lits': lits, 'imp': 1})
     if rng.random() < 0.12:         # the same surface with both senses
         c = rng.choice(cells)
-        c['lits'].append(-c['lits'][0])
+        if abs(c['lits'][0]) in usable:
+            c['lits'].append(-c['lits'][0])
     if fault == 'missing':
         rng.choice(cells)['lits'].append(rng.choice([77, -78]))
     elif fault == 'nocell':
@@ -378,7 +418,9 @@ def observe(deck, args):
 
 def coq_cards(deck):
     return clist(f'(mkS {cstr(surf_name(s))} {cnat(s["mcnp"])} {cn(s["cls"])} '
-                 f'{clist(cn(a) for a in s["aux"])})' for s in deck['surfs'])
+                 f'{clist(cn(a) for a in s["aux"])} '
+                 f'{clist(cbool(b) for b in s.get("sides", []))})'
+                 for s in deck['surfs'])
 
 
 def coq_cells(deck):
@@ -390,11 +432,12 @@ def coq_cells(deck):
     for c in deck['cells']:
         lits = []
         for x in c['lits']:
-            cls = 0
+            cls, aux, sides = 0, [], []
             s = last.get(abs(x))
-            if c.get('trcl') and s is not None and s['single']:
-                cls = moved_cls(s['cls'], c['trcl'])
-            lits.append(f'(mkL {cz(x)} {cn(cls)} [])')
+            if c.get('trcl') and s is not None:
+                (cls, *aux), sides = moved_parts(s, c['trcl'])
+            lits.append(f'(mkL {cz(x)} {cn(cls)} {clist(cn(a) for a in aux)} '
+                        f'{clist(cbool(b) for b in sides)})')
         out.append(f'(mkC {cn(c["id"])} {cbool(c["imp"] != 0)} '
                    f'{cbool(bool(c.get("trcl")))} {clist(lits)})')
     return clist(out)
@@ -615,18 +658,71 @@ def trcl_shift(c):
 def written_possible(deck, dedup):
     '''False when no converted cell can survive (the run then stops on an
     empty max()): no cell with non-zero importance, or every one has two
-    duplicates / the same surface with opposite senses.'''
+    coincident sub-surfaces (the same one when de-duplication is off) with
+    opposite senses.'''
     last = effective_surfs(deck)
     for c in deck['cells']:
         if c['imp'] == 0 or 'lits' not in c:
             continue
-        pos = {(last[abs(x)]['cls'] if dedup else abs(x))
-               for x in c['lits'] if x > 0 and abs(x) in last}
-        neg = {(last[abs(x)]['cls'] if dedup else abs(x))
-               for x in c['lits'] if x < 0 and abs(x) in last}
+        pos, neg = set(), set()
+        for n, x in enumerate(c['lits']):
+            s = last.get(abs(x))
+            if s is None:
+                continue
+            if c.get('trcl'):
+                classes, sides = moved_parts(s, c['trcl'])
+                names = [('copy', n, i) for i in range(len(classes))]
+            else:
+                classes = [s['cls']] + list(s['aux'])
+                sides = list(s.get('sides') or [True] * len(classes))
+                names = [('card', abs(x), i) for i in range(len(classes))]
+            for cls, side, name in zip(classes, sides, names):
+                positive = (x > 0) == side
+                (pos if positive else neg).add(cls if dedup else name)
         if not pos & neg:
             return True
     return False
+
+
+def conflicting_loci(deck, last):
+    '''Two coincident loci carrying different proper flags: flagged single
+    cards and the copies made for converted cells with a TRCL / placed by a
+    FILL with a translation (compared numerically on sample points).'''
+    loci = []
+    for s in last.values():
+        if s['flag'] in ('*', '+') and s['mcnp'] == 1:
+            loci.append((s, None))
+    for c in deck['cells']:
+        shift = trcl_shift(c)
+        if shift is None or c['imp'] == 0:
+            continue
+        for k in cell_refs(deck, c):
+            s = last.get(k)
+            if s is not None and s['flag'] in ('*', '+') and s['mcnp'] == 1:
+                loci.append((s, shift))
+    points = sample_points(random.Random(4242), n=64)
+
+    def coincide(a, b):
+        same = opposite = True
+        for p in points:
+            va = mcnp_value(deck, a[0], p, a[1])
+            vb = mcnp_value(deck, b[0], p, b[1])
+            if abs(va) < 1e-6 or abs(vb) < 1e-6:
+                continue
+            if (va > 0) == (vb > 0):
+                opposite = False
+            else:
+                same = False
+        return same or opposite
+    return any(a[0]['flag'] != b[0]['flag'] and coincide(a, b)
+               for i, a in enumerate(loci) for b in loci[i + 1:])
+
+
+def trcl_shift(c):
+    '''Translation applied to the surfaces of the cell: its TRCL, or the
+    transformation of the FILL that places its universe.'''
+    text = c.get('trcl') or c.get('fillshift')
+    return [float(x) for x in text.split()] if text else None
 
 
 # ---- decks that failed before the repair of writeT4BoundCond ---------------
@@ -940,21 +1036,26 @@ def tie_numbering(res, rng, n):
                 cls += 1
                 vals.append((cls, rng.choice([1, -1])))
             dic[k] = vals
-            table.append((k, [c for c, _ in vals]))
-        numbering, _ = dic.number_items()
+            table.append((k, [c for c, _ in vals], [sd for _, sd in vals]))
+        numbering, matching = dic.number_items()
         want = clist(cpair(cn(k), cn(c)) for k, c in numbering.items())
+        wantm = clist(cpair(cn(k), clist(cz(i) for i in ids))
+                      for k, ids in matching.items())
         tab = clist(cpair(cn(k), f'(mkE "" 1 {cn(cl[0])} '
-                          f'{clist(cn(c) for c in cl[1:])})')
-                    for k, cl in table)
+                          f'{clist(cn(c) for c in cl[1:])} '
+                          f'{clist(cbool(sd > 0) for sd in sides)})')
+                    for k, cl, sides in table)
         lines.append(f'list_eqb (pair_eqb N.eqb N.eqb) (number_items {tab}) '
-                     f'{want}')
+                     f'{want} && list_eqb (pair_eqb N.eqb (list_eqb Z.eqb)) '
+                     f'(matching_of {tab}) {wantm}')
         meta.append(table)
     term = 'From T4V Require Import Base.Cases.\nImport ListNotations.\n'
     out, log = common.coq_eval(
         HEADER + term, 'bad_indices (fun b : bool => b) '
         + clist(lines))
     ok = out is not None and out.strip() in ('[]', 'nil')
-    res.obligation(f'tie:numbering ({n} dictionaries: number_items)', ok,
+    res.obligation(f'tie:numbering ({n} dictionaries: number_items = '
+                   'number_items + matching_of)', ok,
                    f'{out} {log[-300:] if out is None else ""}')
     if not ok:
         res.violation('correspondence',
